@@ -53,7 +53,7 @@ def gen(ctx, d, seed, items, opts, extra=(), timeout=120, strace=None):
 
 def opt_list(o):
     out = []
-    for k in ("kv", "mm", "delta"):
+    for k in ("kv", "mm", "delta", "fixkey"):
         if o.get(k):
             out.append("-" + k)
     out += ["-conc", str(o.get("conc", 2))]
